@@ -3762,5 +3762,6 @@ FILES += [
         {"file": RW, "fn": "centered_binomial", "mod": "sample", "model": "Rng.centeredBinomial"},
         {"file": RW, "fn": "ternary", "mod": "sample", "model": "Rng.ternary"},
         {"file": RW, "fn": "uniform", "mod": "sample", "model": "Rng.uniformPoly"},
+        {"file": "src/text.rs", "fn": "expand_seed", "impl": "ExpandSeed for Ciphertext", "skeleton": "expand_seed", "model": "Encrypt.expandSeed (skeleton over the flat buffer)"},
     ]}),
 ]
